@@ -32,9 +32,26 @@ type Case struct {
 	E   *xast.Expr        `json:"e"`
 	R   []json.RawMessage `json:"r"`
 	Cs  []int             `json:"cs,omitempty"`
-	Ns  map[string]string `json:"ns,omitempty"`
+	Ns  NsMap             `json:"ns,omitempty"`
 	Nav string            `json:"nav,omitempty"`
 	Tag string            `json:"tag,omitempty"`
+}
+
+// NsMap is a namespace map; TLC writes the empty function as [].
+type NsMap map[string]string
+
+// UnmarshalJSON accepts {} / {"p":"u"} / [] (the empty map).
+func (m *NsMap) UnmarshalJSON(b []byte) error {
+	if len(b) > 0 && b[0] == '[' {
+		*m = NsMap{}
+		return nil
+	}
+	var x map[string]string
+	if err := json.Unmarshal(b, &x); err != nil {
+		return err
+	}
+	*m = NsMap(x)
+	return nil
 }
 
 // Mismatch is a disagreement between the engine and the specification.
@@ -227,6 +244,60 @@ func (w *worker) runCase(line int, raw []byte) {
 		w.cur.Store(fmt.Sprintf("line %d expr %s", line, text))
 		w.curAt.Store(time.Now().UnixNano())
 		ex, err, co := compile(text, c.Ns)
+		if kind == "compile-err" {
+			evals++
+			nontriv++
+			if len(localNT) == 0 {
+				localNT = append(localNT, text)
+			}
+			if err == nil || ex != nil || co.Panic != "" {
+				w.report(Mismatch{Line: line, Kind: kind, Expr: text, Render: renderName(o), Fail: "compile-accepted", Want: c.R[0], Got: co, Via: "Compile", Case: raw})
+			}
+			atomic.AddInt64(&w.st.Cases, 1)
+			continue
+		}
+		if kind == "noerr" {
+			// C15: whatever Compile accepted must not fail with a Go runtime error
+			evals++
+			if co.Panic != "" {
+				w.report(Mismatch{Line: line, Kind: kind, Expr: text, Render: renderName(o), Fail: "compile-panic:" + co.Panic, Got: co, Via: "Compile", Case: raw})
+				continue
+			}
+			if err != nil || ex == nil {
+				atomic.AddInt64(&w.st.Cases, 1)
+				continue // rejected by Compile: fine
+			}
+			nontriv++
+			if len(localNT) == 0 {
+				localNT = append(localNT, text)
+			}
+			for _, ctx := range ctxs {
+				for _, via := range []string{"Select", "Evaluate"} {
+					ex2, _, _ := compile(text, c.Ns)
+					var got Outcome
+					if via == "Select" {
+						got = doSelect(ex2, c.D, ctx, plain)
+					} else {
+						got = doEvaluate(ex2, c.D, ctx, plain)
+					}
+					evals++
+					fail := ""
+					switch {
+					case got.Panic != "" && got.Panic != "deliberate":
+						fail = "panic:" + got.Panic
+					case got.Typ != "":
+						fail = "type"
+					case got.Runaway:
+						fail = "runaway"
+					}
+					if fail != "" {
+						w.report(Mismatch{Line: line, Kind: kind, Expr: text, Render: renderName(o), Ctx: ctx, Fail: fail, Want: c.R[0], Got: got, Via: via, Case: raw})
+					}
+				}
+			}
+			atomic.AddInt64(&w.st.Cases, 1)
+			continue
+		}
 		if err != nil || co.Panic != "" || ex == nil {
 			if err != nil {
 				co.Msg = err.Error()
